@@ -368,7 +368,10 @@ Definition subset_acc (st : store) (s e : option key) : result Z :=
   end.
 
 Definition prefix_sum (st : store) (e : option key) : result Z := subset_acc st None e.
-Definition total_acc (st : store) : result Z := subset_acc st None None.
+(* Tree.TotalAccumulatedValue (as repaired by /repo commit 9b85b1164c): left + exact + right of a root split at nil *)
+Definition total_acc (st : store) : result Z :=
+  r <- split_acc st [] ;;
+  let '(l, x, rt) := r in Ok (l + x + rt).
 
 (* Tree.Iterator(begin, end) / ReverseIterator: the level-0 entries with begin <= key < end (end = None: to the
    end of the level), with the stored Leaf's accumulation *)
